@@ -651,6 +651,12 @@ class Interp:
         v = lit_val(pat)
         if isinstance(v, str):
             return len(v.encode())
+        # a parameter of a private function that every caller supplies as an ASCII literal of one length
+        x = peel(pat) if pat is not None else None
+        if isinstance(x, dict) and x.get("k") == "local" and x.get("id") in self.params:
+            lits = PARAM_LITERALS.get((self.b["path"], self.params[x["id"]]))
+            if lits and all(l.isascii() for l in lits) and len({len(l) for l in lits}) == 1:
+                return len(next(iter(lits)))
         return None
 
     # ---- bindings -------------------------------------------------------------
@@ -1391,7 +1397,39 @@ def entry_roots(F):
     return roots
 
 
+PARAM_LITERALS = {}
+
+
+def param_literals(F):
+    """(private fn path, parameter index) -> set of string literals, when every call site in the crate passes a
+    string literal there (the callee is only ever used with those texts)"""
+    calls = {}
+    for b in F.bodies:
+        if "body" not in b or b.get("exp"):
+            continue
+        for n in walk(b["body"]):
+            if n.get("k") in ("call", "mcall"):
+                cal = callee(n)
+                hb = F.body_by_path.get(cal)
+                if hb is None or hb.get("pub") or hb.get("exp"):
+                    continue
+                args = list(n.get("args") or [])
+                if n.get("k") == "mcall":
+                    args = [n.get("recv")] + args
+                calls.setdefault(cal, []).append(args)
+    out = {}
+    for cal, sites in calls.items():
+        n_args = min(len(a) for a in sites)
+        for i in range(n_args):
+            vals = [lit_val(peel(a[i])) if isinstance(a[i], dict) else None for a in sites]
+            if vals and all(isinstance(v, str) for v in vals):
+                out[(cal, i)] = set(vals)
+    return out
+
+
 def ledger(F):
+    PARAM_LITERALS.clear()
+    PARAM_LITERALS.update(param_literals(F))
     summ = compute_summaries(F)
     cg = CallGraph(F)
     reach = cg.reachable(entry_roots(F))
